@@ -323,11 +323,35 @@ func (expr Expression) variablesUsed(acc map[string]struct{}) {
 			arg.variablesUsed(acc)
 		}
 		return
+	case ExpressionTypeQueryExpression:
+		// A subquery may refer to variables of the outer record anywhere inside it.
+		(&Transformers{
+			ExpressionTransformer: func(expr Expression) Expression {
+				if expr.ExpressionType == ExpressionTypeVariable {
+					acc[expr.Variable.Name] = struct{}{}
+				}
+				return expr
+			},
+		}).TransformNode(expr.QueryExpression.Source)
+		return
+	case ExpressionTypeCoalesce:
+		for _, arg := range expr.Coalesce.Arguments {
+			arg.variablesUsed(acc)
+		}
+		return
+	case ExpressionTypeTuple:
+		for _, arg := range expr.Tuple.Arguments {
+			arg.variablesUsed(acc)
+		}
+		return
 	case ExpressionTypeTypeAssertion:
 		expr.TypeAssertion.Expression.variablesUsed(acc)
 		return
 	case ExpressionTypeTypeCast:
 		expr.TypeCast.Expression.variablesUsed(acc)
+		return
+	case ExpressionTypeObjectFieldAccess:
+		expr.ObjectFieldAccess.Object.variablesUsed(acc)
 		return
 	}
 
